@@ -297,6 +297,9 @@ def r2(ctx, modname, cases, mr):
                 ctx.holds(R, lab + ":state-guarded", m, c.node.pattern, "error information is processed in every state (AC lookup by id ignores unknown ACs)")
             else:
                 ctx.check(len(c.states) == 1, R, lab + ":state-guarded", m, c.node.pattern, "status processing is guarded by a state equality (frames before initialisation are ignored)", f"states in guard: {c.states}")
+                # outside its own handshake step a status frame is applied in the steady state only: an unsolicited broadcast
+                # that lands between two steps is ignored by both generations alike (the step's own answer follows)
+                ctx.check(c.states == ["CONNECTED"] or not c.states, R, lab + ":steady-state-only", m, c.node.pattern, "a frame that neither advances the handshake nor sends anything is processed in state CONNECTED only", f"also processed in state {c.states}")
         # shadowing by an earlier case
         for e in cases[: c.index]:
             covers = e.classes == c.classes[: len(e.classes)] and len(e.classes) <= len(c.classes)
@@ -366,6 +369,10 @@ def r4(ctx, modname):
                 sup_ok = True
         trys = [t for t in ast.walk(f.node) if isinstance(t, ast.Try) and any(x is c for s in t.body for x in ast.walk(s)) and any(h.type is not None and "TimeoutError" in unparse(h.type) for h in t.handlers)]
         ctx.check(sup_ok or bool(trys), R, f"{gen}:init:timeout-swallowed", m, c, "TimeoutError from wait_for is suppressed (init never raises on a silent console)", "not suppressed")
+    # the five seconds are spent once: init() contains no loop (a wait that is re-armed "while the handshake makes progress"
+    # lets a console that stops answering after the first step hold init() for a multiple of the limit)
+    loops = [x for x in walk_no_nested(f.node) if isinstance(x, (ast.While, ast.For, ast.AsyncFor))]
+    ctx.check(not loops, R, f"{gen}:init:waits-once", m, (loops[0] if loops else f.node), "init() waits for the initialised event once, under one 5 s limit (no loop around the wait)", f"`{norm_text(loops[0])[:60]}` repeats the wait" if loops else "")
     rets = [x for x in walk_no_nested(f.node) if isinstance(x, ast.Return)]
     from ..q import inline_properties
 
